@@ -291,6 +291,25 @@ theorem closure_closed_aux (l : List G) (hc : Closed mul eqv l) (fuel k : Nat) (
   rw [outer_closed mul eqv l hc fuel hf fuel 0 (by omega)]
   simp
 
+theorem dedupGens_aux : ∀ (l acc : List G), (acc ++ l).Pairwise (fun y x => eqv x y = false) →
+    l.foldl (fun acc x => if acc.any (fun y => eqv x y) then acc else acc ++ [x]) acc = acc ++ l
+  | [], acc, _ => by simp
+  | x :: t, acc, h => by
+    have hnot : acc.any (fun y => eqv x y) = false := by
+      rw [List.any_eq_false]
+      intro y hy
+      have := (List.pairwise_append.mp h).2.2 y hy x List.mem_cons_self
+      simp [this]
+    rw [List.foldl_cons, hnot]
+    simp only [Bool.false_eq_true, if_false]
+    have := dedupGens_aux t (acc ++ [x]) (by simpa [List.append_assoc] using h)
+    simpa [List.append_assoc] using this
+
+/-- a list whose elements are pairwise different (as the element list of a group is) is read unchanged -/
+theorem dedupGens_fixed (l : List G) (h : l.Pairwise (fun y x => eqv x y = false)) : dedupGens eqv l = l := by
+  have := dedupGens_aux eqv l [] (by simpa using h)
+  simpa [dedupGens] using this
+
 end closure
 
 /-! ### point symmetry ↔ dictionary -/
